@@ -650,7 +650,26 @@ func firstLines(s string, n int) string {
 	return strings.Join(l, "\n  ")
 }
 
+// runChoices re-executes a recorded choice list in a fresh worker process.
+// For race-detector properties the execution is deterministic but the
+// detector is not (its shadow memory keeps a bounded, randomly evicted access
+// history): a report that does not recur is retried a few times.
 func runChoices(prop *Prop, tier string, rf *replayFile, trace bool) *Result {
+	n := 1
+	if prop.OnStderr != nil {
+		n = 6
+	}
+	var r *Result
+	for i := 0; i < n; i++ {
+		r = runChoicesOnce(prop, tier, rf, trace)
+		if r != nil && r.Outcome == "violation" {
+			break
+		}
+	}
+	return r
+}
+
+func runChoicesOnce(prop *Prop, tier string, rf *replayFile, trace bool) *Result {
 	tmp, err := os.CreateTemp("", "verif-replay-*.json")
 	if err != nil {
 		return nil
